@@ -213,7 +213,7 @@ def array_fingerprint(a):
     return ("py", repr(a))
 
 
-def snapshot(o, depth=0, _seen=None):
+def snapshot(o, depth=0, rng_by_id=False):
     """Recursive structural snapshot of a Python object (by value) used for
     before/after and twin comparisons. RandomState objects are represented by
     their state."""
@@ -233,30 +233,32 @@ def snapshot(o, depth=0, _seen=None):
     if isinstance(o, np.ndarray):
         if o.dtype == object:
             return ("ndarray-obj", o.shape,
-                    tuple(snapshot(x, depth + 1) for x in o.ravel().tolist()))
+                    tuple(snapshot(x, depth + 1, rng_by_id) for x in o.ravel().tolist()))
         return ("ndarray", str(o.dtype), o.shape, o.tobytes())
     if isinstance(o, np.random.RandomState):
+        if rng_by_id:
+            return ("RandomState-id", id(o))
         st = o.get_state()
         return ("RandomState", st[0], st[1].tobytes(), st[2], st[3], st[4])
     if isinstance(o, np.random.Generator):
         return ("Generator", repr(o.bit_generator.state))
     if isinstance(o, dict):
         return ("dict", tuple(sorted(
-            ((repr(k), snapshot(v, depth + 1)) for k, v in o.items()),
+            ((repr(k), snapshot(v, depth + 1, rng_by_id)) for k, v in o.items()),
             key=lambda kv: kv[0])))
     if isinstance(o, (list, tuple)):
         return (type(o).__name__,
-                tuple(snapshot(v, depth + 1) for v in o))
+                tuple(snapshot(v, depth + 1, rng_by_id) for v in o))
     import collections
     if isinstance(o, collections.deque):
-        return ("deque", o.maxlen, tuple(snapshot(v, depth + 1) for v in o))
+        return ("deque", o.maxlen, tuple(snapshot(v, depth + 1, rng_by_id) for v in o))
     if isinstance(o, (set, frozenset)):
         return ("set", tuple(sorted(repr(x) for x in o)))
     if callable(o) and not hasattr(o, "get_params"):
         return ("callable", getattr(o, "__qualname__", type(o).__name__))
     if hasattr(o, "__dict__"):
         return (type(o).__name__, tuple(sorted(
-            ((k, snapshot(v, depth + 1)) for k, v in vars(o).items()),
+            ((k, snapshot(v, depth + 1, rng_by_id)) for k, v in vars(o).items()),
             key=lambda kv: kv[0])))
     if hasattr(o, "__getstate__"):
         try:
